@@ -273,6 +273,15 @@ def dispatch_copy(net, opt):
         n = node[net.gen.at[idx, "bus"]]
         if n in vnode:
             n2.gen.at[idx, "vm_pu"] = vnode[n]
+    # one angle reference is enough: further slack gens carry their OPF dispatch as ordinary PV generators
+    island = gen.energized_buses(net, components=True)
+    have_ref = {island.get(net.ext_grid.at[i, "bus"]) for i in net.ext_grid.index if element_active(net, "ext_grid", i, alive)}
+    for idx in n2.gen.index:
+        if bool(n2.gen.at[idx, "slack"]) and element_active(net, "gen", idx, alive):
+            isl = island.get(net.gen.at[idx, "bus"])
+            if isl in have_ref:
+                n2.gen.at[idx, "slack"] = False
+            have_ref.add(isl)
     angles = (not ac) or opt.get("calculate_voltage_angles", True)
     for idx in n2.ext_grid.index:
         b = net.ext_grid.at[idx, "bus"]
@@ -420,7 +429,18 @@ def check(case):
         res.label("binding:" + b)
     alive = alive_fn(net, ac)
     n_eg = sum(1 for i in net.ext_grid.index if element_active(net, "ext_grid", i, alive))
-    if ac and not opt.get("calculate_voltage_angles", True) and n_eg > 1:
+    node = oracles.fused_nodes(net)
+    slack_nodes = {node[net.ext_grid.at[i, "bus"]] for i in net.ext_grid.index if element_active(net, "ext_grid", i, alive)}
+    live_nodes = {node[b] for b in net.bus.index if alive(b)}
+    vmin = min([float(net.res_bus.at[b, "vm_pu"]) for b in net.bus.index if alive(b)] or [1.0]) if ac else 1.0
+    if vmin < 0.5:
+        # without declared voltage bands the OPF may settle on a low-voltage solution (seen: 0.05 p.u.); the power flow
+        # equations are ill-conditioned there and the tolerance model of the reproduction clause does not hold
+        res.label("low-voltage-solution")
+    elif n_eg > 1 and live_nodes <= slack_nodes:
+        # the power flow ignores ext_grid.va_degree when no bus is left to solve (observed; a setpoint matter of C04, not of C16)
+        res.label("reproduction-not-representable")
+    elif ac and not opt.get("calculate_voltage_angles", True) and n_eg > 1:
         # the OPF leaves the angle at further ext_grids free; a power flow without voltage angles cannot take it as a setpoint
         res.label("reproduction-not-representable")
     elif not res.failures:
